@@ -211,6 +211,45 @@ class Ctx:
             self._instantiating = False
         return hyps
 
+    def sigma_pointwise(self, goal):
+        """an equality whose two sides differ by a linear combination of sums over ONE index range holds when the
+        summands agree pointwise (congruence of finite sums).  Tried when the monomial-wise normal form did not
+        already identify the sums: e.g. E/(1+E) - 1/(1+E) versus (E-1)/(1+E)."""
+        try:
+            ant = None
+            g = goal
+            if z3.is_app(g) and g.decl().kind() == z3.Z3_OP_IMPLIES:
+                ant, g = g.children()
+            if not (z3.is_app(g) and g.decl().kind() == z3.Z3_OP_EQ and z3.is_real(g.arg(0))):
+                return goal
+            atoms = [a for a in self.sigma_atoms if _contains_term(g, a.sym)]
+            if len(atoms) < 2:
+                return goal
+            a0 = atoms[0]
+            if any(a.depth != 0 or not a.extent.eq(a0.extent) or not a.lo.eq(a0.lo) for a in atoms):
+                return goal
+            diff = g.arg(0) - g.arg(1)
+            zero = [(a.sym, z3.RealVal(0)) for a in atoms]
+            resid = z3.simplify(z3.substitute(diff, *zero), som=True)
+            if not (z3.is_rational_value(resid) and resid.as_fraction() == 0):
+                return goal           # something other than the sums is involved
+            k = z3.Int("sk0")
+            point = z3.substitute(diff, *[(a.sym, a.core) for a in atoms])
+            sol = z3.Solver()
+            sol.set("timeout", 4000)
+            for h in self.hypotheses():
+                sol.add(h)
+            if ant is not None:
+                sol.add(ant)
+            sol.add(k >= a0.lo, k < a0.extent)
+            sol.add(point != 0)
+            if sol.check() == z3.unsat:
+                self.notes.append("sum equality discharged by pointwise congruence")
+                return z3.BoolVal(True) if ant is None else z3.Implies(ant, z3.BoolVal(True))
+        except z3.Z3Exception:
+            pass
+        return goal
+
     def mark_nonneg(self, t):
         t = unwrap(t)
         if z3.is_expr(t):
@@ -276,6 +315,7 @@ class Ctx:
         if isinstance(goal, bool):
             goal = z3.BoolVal(goal)
         goal = poly_normalise(goal)
+        goal = self.sigma_pointwise(goal)
         hyps = relevant(self.hypotheses(extra_terms), goal)
         self.obligations.append(
             Obligation(name, hyps, goal, list(self.prefix[: self.cursor]), kind, meta, getvals)
@@ -337,6 +377,22 @@ def relevant(hyps, goal):
                 rest.append((h, syms))
         pending = rest
     return base + kept
+
+
+def _contains_term(e, v):
+    vid = v.get_id()
+    seen = set()
+    stack = [e]
+    while stack:
+        t = stack.pop()
+        i = t.get_id()
+        if i in seen:
+            continue
+        seen.add(i)
+        if i == vid:
+            return True
+        stack.extend(t.children())
+    return False
 
 
 def poly_normalise(goal):
